@@ -53,7 +53,7 @@
       - [C13_enabling_shows_everything]: with every feature enabled nothing is deleted. *)
 From Coq Require Import String List NArith.
 From ApiFu Require Import Base.Sexp Feat.FeaturesModel Feat.FeaturesSpec Feat.FeaturesProofs Feat.FeaturesReach
-  Feat.FeaturesDocModel Feat.FeaturesDocProofs.
+  Feat.FeaturesDocModel Feat.FeaturesDocProofs Feat.FeaturesFuelProofs.
 From ApiFu Require Vld.Ast Vld.TypeInfoModel Vld.ValidatorModel Feat.FeaturesVld.
 Import ListNotations.
 Open Scope string_scope.
@@ -165,6 +165,18 @@ Theorem C13_set_consumers_disciplined : forall fx S F fuel d,
   (exists r, snd (run fx S F [] (sdoc_validate d)) = Done r) /\
   (exists r, snd (run fx S F [] (sdoc_prog fuel d)) = Done r).
 Proof. exact (fun fx S F fuel d => conj (sdoc_validate_disciplined fx S F d) (sdoc_prog_disciplined fx S F fuel d)). Qed.
+
+(** the fuel of the selection-set executor suffices: [fitsb frs n l] says that the selection set
+    nests at most n levels of fields, inline fragments and expansions of named fragments (such an n
+    exists exactly when no fragment below the operation spreads itself — the validator's cycle
+    rule); then no run with at least n + 2 units of fuel ends in "out of fuel" ([Some None]), on
+    any schema, feature set and repair state.  Together with [C13_feature_exec_eq_sets_partial]:
+    the equation is never the vacuous "out of fuel = out of fuel" for such documents.  The
+    correspondence check evaluates [fitsb] with n = sdoc_fuel d - 2 on every case. *)
+Theorem C13_selection_set_fuel_suffices : forall fx S F d n fuel,
+  fitsb (d_frags d) n (d_sels d) = true -> n + 2 <= fuel ->
+  exists errs r, snd (run fx S F [] (sdoc_prog fuel d)) = Done (errs, r) /\ r <> Some None.
+Proof. exact sdoc_fuel_suffices. Qed.
 
 (** a subscription served over a WebSocket connection (subscribe once, then every event of the
     source stream executes the selection set on the subscription type), same transcription, same
@@ -358,6 +370,7 @@ Print Assumptions C13_chain_consumers_disciplined.
 Print Assumptions C13_feature_validate_eq_sets_partial.
 Print Assumptions C13_feature_exec_eq_sets_partial.
 Print Assumptions C13_set_consumers_disciplined.
+Print Assumptions C13_selection_set_fuel_suffices.
 Print Assumptions C13_feature_subscription_eq_partial.
 Print Assumptions C13_ws_features_fixed_at_init.
 Print Assumptions C13_C04_type_info_eq.
